@@ -2,6 +2,7 @@
 from vlib import orch, harness
 
 ID = 'C08'
+CONTRACTS = True     # icontract recording contracts ride along (vlib/contracts.py)
 LEVEL = 'exploration'
 RULE = ('random digraphs over 1-8 tiny modules (chains, diamonds, cycles, self loops, multi-module '
         'files) x 1-4 sources each holding a random subset with its own tagged copy; all texts are '
@@ -44,6 +45,16 @@ def build(rng, tier):
                 continue
             if rng.random() < (0.0 if ns == 1 else 0.45):
                 scn['sources'][si][m] = 'absent'
+    # SMIv1 style dependencies: every symbol imported from them is rewritten to an SMIv2 home, the
+    # module is named in IMPORTS all the same and belongs to the closure
+    if rng.random() < 0.3:
+        from vlib.orch import V1_BASE
+        served = [b for b in sorted(V1_BASE) if rng.random() < 0.7]
+        scn['base_extra'] = served
+        for m in mods:
+            if rng.random() < 0.4:
+                scn['graph'][m] = scn['graph'][m] + rng.sample(sorted(V1_BASE), rng.randint(1, 2))
+        scn['v1'] = True
     if rng.random() < 0.3:
         scn['options']['ignoreErrors'] = True
     return scn
@@ -67,6 +78,8 @@ def run_case(idx, rng, tier, res):
         res.count('cyclic_or_selfloop')
     if scn['files']:
         res.count('multi_module_files')
+    if scn.get('v1'):
+        res.count('smiv1_style_import_scenarios')
     res.cell('graph:' + cls, 'sources:%d' % len(scn['sources']),
              'closure:%d' % min(8, len(orch.closure(scn, scn['requested']))))
     res.sig = harness.stable_hash(scn)
